@@ -5,7 +5,7 @@
 From Coq Require Import String.
 From Coq Require Import List Bool Arith NArith ZArith.
 Import ListNotations.
-Require Import Str IpText JunModel JunProofs G_rx G_text_consts TextModel TextProofs TextProofs2.
+Require Import Str IpText JunModel JunProofs G_rx G_text_consts TextModel TextProofs TextProofs2 Findings.
 
 Definition pseudonym (n : nat) : str := lit "netconanRemoved" ++ show_dec (N.of_nat n).
 Definition is_hex_lower (c : N) : bool := ((48 <=? c) && (c <=? 57) || (97 <=? c) && (c <=? 102))%N.
@@ -44,6 +44,13 @@ Theorem C09_enclosing_texts :
   ENCLOSING_TAIL = map lit ["\'"; "\"""; "'"; """"; " "; "]"; "}"; ";"; ","]%string.
 Proof. split; vm_compute; reflexivity. Qed.
 
+(* the FULL statement "every replacement has the format of the original, for every history" is false of the faithful model (known finding D18):
+   an all-digit secret seen after the $9$ encryption of the same digits receives the text pseudonym stored for that plaintext *)
+Theorem C09_format_kept_for_every_history_refuted :
+  exists clear salt r9 r, check_format clear = F_NUMERIC /\ d18_run clear salt = Done (r9, r) /\ check_format r <> F_NUMERIC.
+Proof. exact numeric_after_its_juniper_encryption_refuted. Qed.
+
+Print Assumptions C09_format_kept_for_every_history_refuted.
 Print Assumptions C09_numeric_hex_type7_encodings_have_their_shape_for_the_first_200_pseudonyms.
 Print Assumptions C09_juniper_replacement_is_decryptable.
 Print Assumptions C09_enclosing_text_is_a_partition_of_the_raw_value.
